@@ -1,23 +1,102 @@
-"""C07: world-harness check (see props/worldcommon.py and DESIGN.md section 4 C07)."""
+"""C07: what was written to a session and saved is what the next request reads.
+
+Two sets of cases, merged into one verdict (props/subcheck.py):
+  * the world check (props/worldcommon.py, profile C07): the sessions the request handlers write, whole
+    histories through the model and the monitors violates_c07 (history + per-step end-to-end read-back);
+  * the session-operations sweep (harness/zz_vf_sessionops_test.go): ARBITRARY sequences of calls on the
+    session API (setters in any order, Clear, Save, several times per request, token texts of every size
+    class) over successive requests of one browser; what the real getters return at the start of every
+    request is compared inside Coq (Corr/SessionCorr.v) with the model of Model/Session.v AND with the
+    reference "the values last written and saved".
+Theorems: Properties/C07.v."""
 import os
 import vflib as L
 from props.worldcommon import WorldSpec
+from props import subcheck
 
 
-class C07(WorldSpec):
+class SessionOpsSweep(subcheck.Sweep):
+    name = "sessionops"
+    harness_test = "TestVF_SessionOps"
+    header = ("From VF Require Import Base.Prelude Model.Cache Model.Session Corr.SessionCorr Proofs.SessionRef.\n"
+              "Open Scope N_scope.\n"
+              "Definition off_theorem (c : scase) := negb (wf_reqs (sc_reqs c) && nch_ok (nch_of (sc_nchunks c)) (sc_reqs c)).\n")
+    # a case outside the premises of C07_api_refinement counts as a broken tie (the generator must stay inside them)
+    footer = ("Definition mism := Eval vm_compute in sids_where (fun c => smismatch c || off_theorem c) cases.\nPrint mism.\n"
+              "Definition viol := Eval vm_compute in sids_where violates_c07s cases.\nPrint viol.\n")
+    shards = 8
+
+    def env(self, tier, attempt):
+        n = 60 if tier == "quick" else 1500
+        if attempt:
+            n *= 5
+        return {"VERIF_N": n, "VERIF_SEED": L.seed() + 7919 * attempt}
+
+    def to_gallina(self, c):
+        return c["coq"]
+
+    def inputs(self, c):
+        return {"id": c["id"], "kind": c["kind"],
+                "reqs": [{"path": r["path"], "ops": r.get("ops") or []} for r in c["reqs"]]}
+
+    def nontrivial(self, c):
+        return sum(1 for r in c["reqs"] for o in (r.get("ops") or []) if o["o"] == "save") >= 1
+
+    def sample(self, c):
+        s = {"id": c["id"], "kind": c["kind"], "reqs": []}
+        for r in c["reqs"]:
+            ops = []
+            for o in r.get("ops") or []:
+                o = dict(o)
+                if len(o.get("v", "")) > 60:
+                    o["v"] = "%s...(%d bytes)" % (o["v"][:40], len(o["v"]))
+                ops.append(o)
+            s["reqs"].append({"path": r["path"], "read_at_start": r.get("obs"), "ops": ops})
+        return s
+
+    def histogram(self, cases):
+        h = {"requests": 0, "ops": {}, "token_size_buckets": {}}
+        for c in cases:
+            h["requests"] += len(c["reqs"])
+            for r in c["reqs"]:
+                for o in r.get("ops") or []:
+                    h["ops"][o["o"]] = h["ops"].get(o["o"], 0) + 1
+                    if o["o"] in ("acc", "ref"):
+                        n = len(o.get("v", ""))
+                        k = "0" if n == 0 else "<=100" if n <= 100 else "<=1500" if n <= 1500 else "<=3100" if n <= 3100 else "<=9000" if n <= 9000 else ">9000"
+                        h["token_size_buckets"][k] = h["token_size_buckets"].get(k, 0) + 1
+        return h
+
+    def describe(self):
+        return ("sequences of session-API calls over 4..9 successive requests of one browser on the real SessionManager: "
+                "SetAuthenticated, SetCSRF/Nonce/CodeVerifier/Email/IncomingPath, SetAccessToken/SetRefreshToken with texts of "
+                "0..33000 bytes (JWT-shaped, base64, compressible, gzip-looking), Clear, Save, from one PRNG (VERIF_SEED) after a "
+                "fixed corpus; the eight getters are read at the start of every request; non-trivial = at least one Save")
+
+
+class C07(subcheck.WithSweeps, WorldSpec):
     pid = "C07"
     profile = "C07"
     monitor = "violates_c07"
     n_quick = 80
     n_thorough = 80 * 25
-    obligations = ['C07_split_concat', 'C07_read_store', 'C07_jar_roundtrip', 'C07_roundtrip', 'C07_nonvacuous']
+    sweeps = [SessionOpsSweep()]
+    obligations = ['C07_split_concat', 'C07_read_store', 'C07_jar_roundtrip', 'C07_roundtrip', 'C07_nonvacuous',
+                   'C07_api_refinement', 'C07_api_mismatch_is_violation']
 
     @property
     def coq_targets(self):
-        t = ["theories/Spec/WorldSpec.vo"]
+        t = ["theories/Spec/WorldSpec.vo", "theories/Corr/SessionCorr.vo", "theories/Proofs/SessionRef.vo"]
         if os.path.exists(os.path.join(L.COQ, "theories/Properties/C07.v")):
             t.append("theories/Properties/C07.vo")
         return t
 
+    def describe_rule(self):
+        return WorldSpec.describe_rule(self) + "; PLUS the session-operations sweep: " + self.sweeps[0].describe()
+
 
 SPEC = C07()
+
+
+def main(argv):
+    return subcheck.main(SPEC, argv)
